@@ -352,9 +352,11 @@ func (rpc *RPC) split(limit int) iter.Seq[RPC] {
 			for _, msg := range rpc.Publish {
 				// We know the message field number is <15 so this is safe.
 				incrementalSize := pbFieldNumberLT15Size + sizeOfEmbeddedMsg(msg.Size())
-				if nextRPCSize+incrementalSize > limit {
+				if nextRPCSize+incrementalSize > limit && messagesInNextRPC > 0 {
 					// The message doesn't fit. Let's set the messages that did fit
-					// into this RPC, yield it, then make a new one
+					// into this RPC, yield it, then make a new one. (If nothing has
+					// been collected yet the message is oversized by itself: it is
+					// yielded alone, never preceded by an empty RPC.)
 					nextRPC.Publish = messageSlice[:messagesInNextRPC]
 					messageSlice = messageSlice[messagesInNextRPC:]
 					if !yield(nextRPC) {
